@@ -4,7 +4,7 @@ import json
 META = {
     "level": "model_checking",
     "technique": "TLA+ model of the idle-shutdown logic (compute_new_shutdown, busy test) model-checked (+timer-not-reset canary); traces of a real connection with scripted streams / keep-alive validated by TLC against the property-level trace spec",
-    "text": "TLC explores the transcribed shutdown logic (timeouts 0 and 2, <= 2 streams, time <= 5) for never-closed-while-busy and not-before-timeout, and rejects a canary that does not clear the timer when the connection becomes busy. Conformance: one real established connection over a puppet muxer that hands out in-memory substreams on command; the probe handler requests outbound streams, holds, drops or marks streams ignore_for_keep_alive and flips connection_keep_alive; the remote end of each substream is a real multistream-select future that the schedule may leave un-negotiated. Seeded schedules with idle_timeout 0 (fully deterministic: an idle connection must be gone after a poll to quiescence, a busy one must not be closed with KeepAliveTimeout) and a few real-time runs with idle_timeout 60 ms that assert only the lower bound (KeepAliveTimeout no earlier than 60 ms after the driver made the connection idle).",
+    "text": "TLC explores the transcribed shutdown logic (timeouts 0 and 2, <= 2 streams, time <= 5) for never-closed-while-busy and not-before-timeout, and rejects a canary that does not clear the timer when the connection becomes busy. Conformance: one real established connection over a puppet muxer that hands out in-memory substreams on command; the probe handler requests outbound streams, holds, half-closes (write half closed, stream still held), drops or marks streams ignore_for_keep_alive and flips connection_keep_alive; the remote end of each substream is a real multistream-select future that the schedule may leave un-negotiated. Seeded schedules with idle_timeout 0 (fully deterministic: an idle connection must be gone after a poll to quiescence, a busy one must not be closed with KeepAliveTimeout) and a few real-time runs with idle_timeout 60 ms that assert only the lower bound (KeepAliveTimeout no earlier than 60 ms after the driver made the connection idle), including directed schedules in which a timer armed in an earlier idle period is followed by a busy period that outlasts it (keep-alive on / held stream / half-closed held stream) and a second idle period.",
     "note": "An inbound substream offered to the muxer counts as 'still negotiating' only once the connection has picked it up, which the driver cannot observe; the trace spec treats it as 'may be negotiating' (never demands closure, never excuses a closure). Real-time runs check lower bounds only.",
     "design_ref": "6/C10",
 }
